@@ -93,6 +93,7 @@ func checkC16(c *Check) {
 	if t == nil {
 		return
 	}
+	mapContract(c)
 	type sweep struct {
 		ep    string
 		m     string
